@@ -37,164 +37,13 @@ func checkC07(c *Ctx) {
 	c.Assumptions = append(c.Assumptions, "Go atomics are sequentially consistent", "Go RWMutex semantics")
 
 	fClosed := c.field("", "scope", "closed")
-	fRoot := c.field("", "scopeRegistry", "root")
-	fRep, fCRep := c.field("", "scope", "reporter"), c.field("", "scope", "cachedReporter")
 	fBucketMap := c.field("", "scopeBucket", "s")
 	clearFn := c.fn("", "scope", "clearMetrics")
-	repFn, crepFn := c.fn("", "scope", "report"), c.fn("", "scope", "cachedReport")
-	if fClosed == nil || fRoot == nil || fRep == nil || fCRep == nil || fBucketMap == nil || clearFn == nil || repFn == nil || crepFn == nil {
-		c.missing("O1 flag-before-report", "tally.scope{closed,reporter,cachedReporter,clearMetrics,report,cachedReport} / scopeRegistry.root / scopeBucket.s")
+	if fClosed == nil || fBucketMap == nil || clearFn == nil {
+		c.missing("O1 flag-before-report", "tally.scope.closed / scopeBucket.s / scope.clearMetrics")
 		return
 	}
-	isReportOf := func(S ssa.Value) Pred {
-		return func(in ssa.Instruction) bool {
-			call, ok := in.(*ssa.Call)
-			if !ok {
-				return false
-			}
-			g := staticCallee(call)
-			return (g == repFn || g == crepFn) && canon(call.Call.Args[0]) == canon(S)
-		}
-	}
-	// ---- O1 / O2 -----------------------------------------------------------------------------
-	nClear := 0
-	for _, fn := range c.funcsOfPkg("") {
-		var clears []*ssa.Call
-		instrsOf(fn, func(in ssa.Instruction) {
-			if call, ok := in.(*ssa.Call); ok && staticCallee(call) == clearFn {
-				clears = append(clears, call)
-			}
-		})
-		if len(clears) == 0 {
-			continue
-		}
-		c.sawFunc(c.fnKey(fn))
-		// "no reporter configured" edges: the false edge of `cachedReporter != nil` reached only after
-		// `reporter != nil` was false (nothing can be delivered there)
-		skip := map[*ssa.BasicBlock]int{}
-		for _, b := range fn.Blocks {
-			iff, ok := condOf(b)
-			if !ok {
-				continue
-			}
-			if m, nn := fieldNonNilCond(fCRep)(iff.Cond); m {
-				for _, b2 := range fn.Blocks {
-					if iff2, ok2 := condOf(b2); ok2 {
-						if m2, nn2 := fieldNonNilCond(fRep)(iff2.Cond); m2 {
-							idx2 := 0
-							if nn2 {
-								idx2 = 1
-							}
-							if edgeDominates(b2, idx2, b) || (b2.Succs[idx2] == b) {
-								if nn {
-									skip[b] = 1
-								} else {
-									skip[b] = 0
-								}
-							}
-						}
-					}
-				}
-			}
-		}
-		for i, cl := range clears {
-			nClear++
-			key := fmt.Sprintf("%s#%d", c.fnKey(fn), i)
-			S := cl.Call.Args[0]
-			// root shutdown: guarded by `<registry>.root.closed` being set
-			shutdown := guardedByEdge(cl, func(cond ssa.Value) (bool, bool) {
-				neg := false
-				for {
-					if u, ok := cond.(*ssa.UnOp); ok && u.Op == token.NOT {
-						neg = !neg
-						cond = u.X
-						continue
-					}
-					break
-				}
-				call, ok := cond.(*ssa.Call)
-				if !ok {
-					return false, false
-				}
-				op := atomicOpOf(call)
-				if op == nil || op.Field != fClosed || op.Kind != "load" {
-					return false, false
-				}
-				if f, _ := loadedField(op.Base); f != fRoot {
-					return false, false
-				}
-				return true, !neg
-			}) != nil
-			if shutdown {
-				c.ok("O2 report-before-clear", key, cl.Pos(), "root shutdown purge (allowed only from Close after the final report: C08 O3)")
-				continue
-			}
-			// O2: every path to the clear passes a report of S
-			entry := entryInstr(fn)
-			rep := isReportOf(S)
-			if esc := reachAvoidingCorr(entry, true, skip, func(i ssa.Instruction) bool { return i == ssa.Instruction(cl) }, rep); esc != nil {
-				c.bad("O2 report-before-clear", key, cl.Pos(), "a scope's metrics are cleared on a path on which that scope has not been reported first: what was recorded since the last pass is lost", c.describe(cl))
-				continue
-			}
-			c.ok("O2 report-before-clear", key, cl.Pos(), "every path to clearMetrics reports the same scope first")
-			// O1: the deciding flag sample dominates the report(s)
-			var deciding ssa.Instruction
-			instrsOf(fn, func(in ssa.Instruction) {
-				op := atomicOpOf(in)
-				if op == nil || op.Field != fClosed || op.Kind != "load" || canon(op.Base) != canon(S) {
-					return
-				}
-				lv, isV := in.(ssa.Value)
-				if !isV {
-					return
-				}
-				// the load decides the clear iff no (branch-consistent) path reaches the clear without
-				// taking the "flag is set" outcome of a test of this load
-				skip2 := map[*ssa.BasicBlock]int{}
-				for k, v := range skip {
-					skip2[k] = v
-				}
-				tested := false
-				for _, b := range fn.Blocks {
-					if iff, ok := condOf(b); ok {
-						if m, onTrue := boolValueCond(lv)(iff.Cond); m {
-							tested = true
-							if onTrue {
-								skip2[b] = 0
-							} else {
-								skip2[b] = 1
-							}
-						}
-					}
-				}
-				if tested && reachAvoidingCorr(entry, true, skip2, func(i ssa.Instruction) bool { return i == ssa.Instruction(cl) }, nil) == nil {
-					deciding = in
-				}
-			})
-			if deciding == nil {
-				c.bad("O1 flag-before-report", key, cl.Pos(), "clearing a scope's metrics is not decided by a load of that scope's closed flag", c.describe(cl))
-				continue
-			}
-			okOrder := true
-			var late ssa.Instruction
-			instrsOf(fn, func(in ssa.Instruction) {
-				if rep(in) && !dominates(deciding, in) {
-					// a report of S that is not preceded by the deciding sample and can reach the clear
-					if reachAvoiding(in, false, func(i ssa.Instruction) bool { return i == ssa.Instruction(cl) }, nil) != nil {
-						okOrder = false
-						late = in
-					}
-				}
-			})
-			if !okOrder {
-				c.bad("O1 flag-before-report", key, deciding.Pos(), "the closed flag that decides the removal is read after the scope was reported: increments made between that report and a Close landing before the flag read are cleared without ever being delivered",
-					"report: "+c.describe(late), "flag read: "+c.describe(deciding), "clear: "+c.describe(cl))
-			} else {
-				c.ok("O1 flag-before-report", key, deciding.Pos(), "the closed flag is sampled before the scope is reported and that sample decides the removal")
-			}
-		}
-	}
-	c.floor("O2 report-before-clear", nClear, 4)
+	c.checkReportBeforeClear("O1 flag-before-report", "O2 report-before-clear")
 
 	// ---- O3 gap-safe deletion -----------------------------------------------------------------------
 	eng := c.newLockEngine()
@@ -204,7 +53,7 @@ func checkC07(c *Ctx) {
 	c.checkInertAndClose("O4 inert-and-close", fClosed)
 
 	// ---- O5 ------------------------------------------------------------------------------------------
-	c.checkLockPairing("O5 lock-pairing", []string{""}, eng)
+	c.checkLockPairing("O5 lock-pairing", []string{""}, eng, 12)
 	c.checkLockOrder("O5 lock-order", []string{""}, eng)
 }
 
@@ -331,7 +180,7 @@ func (c *Ctx) checkGapSafeDeletes(rule string, fMap *types.Var, eng *lockEngine,
 		}
 	}
 	if len(helpers) > 0 {
-		c.floor(rule+"-caller", nSites, 4)
+		c.floor(rule+"-caller", nSites, 2)
 	}
 }
 
@@ -445,4 +294,214 @@ func (c *Ctx) checkInertAndClose(rule string, fClosed *types.Var) {
 	} else {
 		c.missing(rule, "tally.scope.Close")
 	}
+}
+
+// checkReportBeforeClear (C07 O1/O2; also armed by C01 as "no loss on close"): wherever a scope's
+// metrics are cleared outside the root shutdown, the same scope was reported first on every
+// branch-consistent path, and the closed-flag sample that decides the removal precedes that report.
+func (c *Ctx) checkReportBeforeClear(ruleO1, ruleO2 string) {
+	fClosed := c.field("", "scope", "closed")
+	fRoot := c.field("", "scopeRegistry", "root")
+	fRep, fCRep := c.field("", "scope", "reporter"), c.field("", "scope", "cachedReporter")
+	fBucketMap := c.field("", "scopeBucket", "s")
+	clearFn := c.fn("", "scope", "clearMetrics")
+	repFn, crepFn := c.fn("", "scope", "report"), c.fn("", "scope", "cachedReport")
+	if fClosed == nil || fRoot == nil || fRep == nil || fCRep == nil || fBucketMap == nil || clearFn == nil || repFn == nil || crepFn == nil {
+		c.missing(ruleO1, "tally.scope{closed,reporter,cachedReporter,clearMetrics,report,cachedReport} / scopeRegistry.root / scopeBucket.s")
+		return
+	}
+	sitesAll := c.staticCallSites()
+	// reportsItsParam: f is a function (or closure) whose every path calls report/cachedReport on
+	// its first parameter
+	reportsItsParam := func(f *ssa.Function) bool {
+		if f == nil || f.Blocks == nil || len(f.Params) == 0 {
+			return false
+		}
+		p0 := ssa.Value(f.Params[0])
+		l := c.newLifter(func(in ssa.Instruction) bool {
+			call, ok := in.(*ssa.Call)
+			if !ok {
+				return false
+			}
+			g := staticCallee(call)
+			return (g == repFn || g == crepFn) && canon(call.Call.Args[0]) == p0
+		}, 1)
+		e := entryInstr(f)
+		return e != nil && reachAvoiding(e, true, isReturn, l.Must) == nil
+	}
+	isReportOf := func(S ssa.Value) Pred {
+		return func(in ssa.Instruction) bool {
+			call, ok := in.(*ssa.Call)
+			if !ok {
+				return false
+			}
+			g := staticCallee(call)
+			if (g == repFn || g == crepFn) && canon(call.Call.Args[0]) == canon(S) {
+				return true
+			}
+			// report dispatch through a function-typed parameter: every caller must pass a function
+			// that reports its argument
+			if g == nil && !call.Call.IsInvoke() && len(call.Call.Args) >= 1 && canon(call.Call.Args[0]) == canon(S) {
+				fn := in.Parent()
+				pi := paramIndex(fn, canon(call.Call.Value))
+				if pi < 0 || len(sitesAll[fn]) == 0 {
+					return false
+				}
+				for _, cs := range sitesAll[fn] {
+					var target *ssa.Function
+					switch a := cs.Common().Args[pi].(type) {
+					case *ssa.MakeClosure:
+						target, _ = a.Fn.(*ssa.Function)
+					case *ssa.Function:
+						target = a
+					}
+					if !reportsItsParam(target) {
+						return false
+					}
+				}
+				return true
+			}
+			return false
+		}
+	}
+	// ---- O1 / O2 -----------------------------------------------------------------------------
+	nClear := 0
+	for _, fn := range c.funcsOfPkg("") {
+		var clears []*ssa.Call
+		instrsOf(fn, func(in ssa.Instruction) {
+			if call, ok := in.(*ssa.Call); ok && staticCallee(call) == clearFn {
+				clears = append(clears, call)
+			}
+		})
+		if len(clears) == 0 {
+			continue
+		}
+		c.sawFunc(c.fnKey(fn))
+		// "no reporter configured" edges: the false edge of `cachedReporter != nil` reached only after
+		// `reporter != nil` was false (nothing can be delivered there)
+		skip := map[*ssa.BasicBlock]int{}
+		for _, b := range fn.Blocks {
+			iff, ok := condOf(b)
+			if !ok {
+				continue
+			}
+			if m, nn := fieldNonNilCond(fCRep)(iff.Cond); m {
+				for _, b2 := range fn.Blocks {
+					if iff2, ok2 := condOf(b2); ok2 {
+						if m2, nn2 := fieldNonNilCond(fRep)(iff2.Cond); m2 {
+							idx2 := 0
+							if nn2 {
+								idx2 = 1
+							}
+							if edgeDominates(b2, idx2, b) || (b2.Succs[idx2] == b) {
+								if nn {
+									skip[b] = 1
+								} else {
+									skip[b] = 0
+								}
+							}
+						}
+					}
+				}
+			}
+		}
+		for i, cl := range clears {
+			nClear++
+			key := fmt.Sprintf("%s#%d", c.fnKey(fn), i)
+			S := cl.Call.Args[0]
+			// root shutdown: guarded by `<registry>.root.closed` being set
+			shutdown := guardedByEdge(cl, func(cond ssa.Value) (bool, bool) {
+				neg := false
+				for {
+					if u, ok := cond.(*ssa.UnOp); ok && u.Op == token.NOT {
+						neg = !neg
+						cond = u.X
+						continue
+					}
+					break
+				}
+				call, ok := cond.(*ssa.Call)
+				if !ok {
+					return false, false
+				}
+				op := atomicOpOf(call)
+				if op == nil || op.Field != fClosed || op.Kind != "load" {
+					return false, false
+				}
+				if f, _ := loadedField(op.Base); f != fRoot {
+					return false, false
+				}
+				return true, !neg
+			}) != nil
+			if shutdown {
+				c.ok(ruleO2, key, cl.Pos(), "root shutdown purge (allowed only from Close after the final report: C08 O3)")
+				continue
+			}
+			// O2: every path to the clear passes a report of S
+			entry := entryInstr(fn)
+			rep := isReportOf(S)
+			if esc := reachAvoidingCorr(entry, true, skip, func(i ssa.Instruction) bool { return i == ssa.Instruction(cl) }, rep); esc != nil {
+				c.bad(ruleO2, key, cl.Pos(), "a scope's metrics are cleared on a path on which that scope has not been reported first: what was recorded since the last pass is lost", c.describe(cl))
+				continue
+			}
+			c.ok(ruleO2, key, cl.Pos(), "every path to clearMetrics reports the same scope first")
+			// O1: the deciding flag sample dominates the report(s)
+			var deciding ssa.Instruction
+			instrsOf(fn, func(in ssa.Instruction) {
+				op := atomicOpOf(in)
+				if op == nil || op.Field != fClosed || op.Kind != "load" || canon(op.Base) != canon(S) {
+					return
+				}
+				lv, isV := in.(ssa.Value)
+				if !isV {
+					return
+				}
+				// the load decides the clear iff no (branch-consistent) path reaches the clear without
+				// taking the "flag is set" outcome of a test of this load
+				skip2 := map[*ssa.BasicBlock]int{}
+				for k, v := range skip {
+					skip2[k] = v
+				}
+				tested := false
+				for _, b := range fn.Blocks {
+					if iff, ok := condOf(b); ok {
+						if m, onTrue := boolValueCond(lv)(iff.Cond); m {
+							tested = true
+							if onTrue {
+								skip2[b] = 0
+							} else {
+								skip2[b] = 1
+							}
+						}
+					}
+				}
+				if tested && reachAvoidingCorr(entry, true, skip2, func(i ssa.Instruction) bool { return i == ssa.Instruction(cl) }, nil) == nil {
+					deciding = in
+				}
+			})
+			if deciding == nil {
+				c.bad(ruleO1, key, cl.Pos(), "clearing a scope's metrics is not decided by a load of that scope's closed flag", c.describe(cl))
+				continue
+			}
+			okOrder := true
+			var late ssa.Instruction
+			instrsOf(fn, func(in ssa.Instruction) {
+				if rep(in) && !dominates(deciding, in) {
+					// a report of S that is not preceded by the deciding sample and can reach the clear
+					if reachAvoiding(in, false, func(i ssa.Instruction) bool { return i == ssa.Instruction(cl) }, nil) != nil {
+						okOrder = false
+						late = in
+					}
+				}
+			})
+			if !okOrder {
+				c.bad(ruleO1, key, deciding.Pos(), "the closed flag that decides the removal is read after the scope was reported: increments made between that report and a Close landing before the flag read are cleared without ever being delivered",
+					"report: "+c.describe(late), "flag read: "+c.describe(deciding), "clear: "+c.describe(cl))
+			} else {
+				c.ok(ruleO1, key, deciding.Pos(), "the closed flag is sampled before the scope is reported and that sample decides the removal")
+			}
+		}
+	}
+	c.floor(ruleO2, nClear, 2)
+
 }
